@@ -84,6 +84,7 @@ class GenConfig:
     fixup_big_ids: bool = False     # also fixup ids 100..120 (three-digit replaceNNN keys)
     tiny_negative: bool = True      # numbers in (-5e-7, 0): print as "-0" with the unfixed format_float (C05 finding)
     world_extras: bool = True       # outputs / fixups / comments on worldspawn
+    case_variants: bool = True      # strings that are a case variant of an earlier string of the same kind in the map
     nodeid: bool = True             # low-weight "nodeid" keyvalues (VMF.node_id manager)
 
     def but(self, **kw: Any) -> 'GenConfig':
@@ -632,8 +633,116 @@ def _finish_map(cfg: GenConfig):
         if build_p and not parse_p:
             explicit_ids(desc)
         link_membership(desc)
+        apply_case_variants(desc, desc.pop('case_mix'))
         return desc
     return fn
+
+
+# ---- strings that differ only in letter case ---------------------------------------------------------------------------
+
+def _no(chars: str):
+    return lambda s: not any(c in s for c in chars)
+
+
+def string_slots(desc: dict):
+    """Every free string field of a map descriptor as (category, holder, key, validator): ``holder[key]`` is the string,
+    ``validator(s)`` tells whether ``s`` satisfies that field's own generator preconditions.  Categories: mat, key, val,
+    io, inst, fixvar, name."""
+    anything = _no('')
+    for n, ent in enumerate([desc['world']] + desc['entities']):
+        kok = world_key_ok if n == 0 else key_ok
+        for pair in ent['keys']:
+            yield 'key', pair, 0, (lambda s, kok=kok: kok(s) and '\r' not in s and '\n' not in s)
+            if pair[0].casefold() != 'classname' or n:
+                yield 'val', pair, 1, anything
+        for fix in ent['fixups']:
+            yield 'fixvar', fix, 0, (lambda s: bool(s) and _fixup_var_ok(s))
+            yield 'val', fix, 1, anything
+        for out in ent['outputs']:
+            sep = '\x1b,' if out['comma_sep'] else '\x1b'
+            yield 'io', out, 'out', (lambda s: _no('\x1b\r\n')(s) and _no_instance_prefix(s))
+            yield 'io', out, 'inp', (lambda s, sep=sep: _no(sep)(s) and _no_instance_prefix(s))
+            yield 'val', out, 'targ', _no(sep)
+            yield 'val', out, 'param', _no('\x1b')
+            if out['inst_out'] is not None:
+                yield 'inst', out, 'inst_out', (lambda s: bool(s) and _no(';\x1b\r\n')(s))
+            if out['inst_in'] is not None:
+                yield 'inst', out, 'inst_in', (lambda s, sep=sep: bool(s) and _no(';' + sep)(s))
+        yield 'name', ent, 'comments', anything
+        if ent['logical_pos'] is not None:
+            yield 'name', ent, 'logical_pos', anything
+        for sol in ent['solids']:
+            if sol['kind'] == 'prism':
+                yield 'mat', sol, 'mat', anything
+            else:
+                for side in sol['sides']:
+                    yield 'mat', side, 'mat', anything
+
+    def vis(v):
+        yield 'name', v, 'name', anything
+        for c in v['children']:
+            yield from vis(c)
+
+    for v in desc['visgroups']:
+        yield from vis(v)
+    for c in desc['cordons']:
+        yield 'name', c, 'name', anything
+
+
+def case_variant(text: str, mode: int) -> str:
+    """ASCII letters of ``text`` in another case (0 upper, 1 lower, 2 swapped, 3 first letter swapped); nothing else changes,
+    so every case-insensitive generator precondition that held for ``text`` still holds."""
+    mode %= 4
+    if mode == 3:
+        for i, c in enumerate(text):
+            if c.isascii() and c.isalpha():
+                return text[:i] + c.swapcase() + text[i + 1:]
+        return text
+    fn = (str.upper, str.lower, str.swapcase)[mode]
+    return ''.join(fn(c) if c.isascii() else c for c in text)
+
+
+def apply_case_variants(desc: dict, mix: list) -> None:
+    """Make "the same string as an earlier object of the same kind, in another letter case" a frequent choice: for the i-th
+    string field the selector ``mix[i % len(mix)]`` (0..15) says whether (values < 6) and how the field is replaced by a
+    case variant of a string seen earlier in the same category of the same map.  In place."""
+    if not mix:
+        return
+    pools: dict = {}
+    for i, (cat, holder, key, valid) in enumerate(string_slots(desc)):
+        sel = mix[i % len(mix)]
+        pool = pools.setdefault(cat, [])
+        cur = holder[key]
+        if sel < 6 and pool:
+            cand = case_variant(pool[(sel * 7 + i) % len(pool)], sel)
+            if cand != cur and valid(cand):
+                holder[key] = cur = cand
+        if any(c.isascii() and c.isalpha() for c in cur):
+            pool.append(cur)
+
+
+def case_transformed(desc: dict, mode: int) -> dict:
+    """A copy of a map descriptor with every free string put into another letter case (for "the other spelling was
+    parsed earlier in this process" histories)."""
+    import copy
+    res = copy.deepcopy(desc)
+    for cat, holder, key, valid in string_slots(res):
+        cand = case_variant(holder[key], mode)
+        if valid(cand):
+            holder[key] = cand
+    return res
+
+
+def case_variant_classes(desc: dict) -> set:
+    """Histogram classes 'case_variant:<category>': two string fields equal case-insensitively but not exactly."""
+    seen: dict = {}
+    res = set()
+    for cat, holder, key, valid in string_slots(desc):
+        cur = holder[key]
+        spell = seen.setdefault((cat, cur.casefold()), cur)
+        if spell != cur:
+            res.add('case_variant:' + cat)
+    return res
 
 
 def link_membership(desc: dict) -> None:
@@ -681,6 +790,7 @@ def map_descs(cfg: GenConfig = DEFAULT, preserve_ids: Optional[bool] = None,
         'cordons': st.lists(cordon_descs(cfg), max_size=cfg.max_cordons) if meta else st.builds(list),
         'world': entity_descs(cfg, world=True),
         'entities': st.lists(entity_descs(cfg, brush=brush_ents), min_size=min_ents, max_size=cfg.max_ents),
+        'case_mix': st.lists(st.integers(0, 15), max_size=8) if cfg.case_variants else st.builds(list),
     }).map(_finish_map(cfg))
 
 
@@ -1348,6 +1458,11 @@ def desc_stats(desc: dict) -> dict:
     s['cameras'] = len(desc.get('cameras', []))
     s['cordons'] = len(desc.get('cordons', []))
     st_ = desc.get('settings') or {}
+    if 'world' in desc and 'entities' in desc and 'visgroups' in desc and 'cordons' in desc:
+        try:
+            s['labels'] |= case_variant_classes(desc)
+        except (KeyError, TypeError):       # short hand-written descriptors
+            pass
     s['viewports'] = int(st_.get('viewports') is not None)
     s['inst_vis'] = int(st_.get('inst_vis') is not None)
     return s
